@@ -341,6 +341,16 @@ class _History:
         ag = self.build_atom(spec)
         self.check_atom(ag, spec, "atomgrid-differs-from-product-model", f"AtomGrid({spec['via']}, degrees={spec['degs']}, method={spec['method']!r}, rotate={spec['rot']})")
         first = (ag.points.tobytes(), ag.weights.tobytes())
+        # anything the grid remembers about its own spherical coordinates must be remembered per centre
+        cc = np.zeros(3) if spec["center"] is None else np.array(spec["center"], dtype=float)
+        for cen in (None, cc + np.array([0.5, -0.25, 0.125]), None):
+            sphc = np.asarray(ag.convert_cartesian_to_spherical(center=None if cen is None else cen.copy()), dtype=float)
+            ref_r = np.linalg.norm(ag.points - (cc if cen is None else cen), axis=1)
+            if sphc.shape != (ag.size, 3):
+                self.ctx.fail("spherical-coordinates-depend-on-history", f"shape {sphc.shape}")
+            else:
+                self.ctx.close(sphc[:, 0], ref_r, 64 * EPS * (float(np.max(ref_r)) + 2.0), "spherical-coordinates-depend-on-history",
+                               f"convert_cartesian_to_spherical(center={'grid centre' if cen is None else cen.tolist()}): radius column")
         self.atoms.append({"spec": spec, "grid": ag, "first": first, "dirty": False, "basis": False})
         keys = [(spec["method"], d) for d in spec["degs"]]
         self.hold("atom", keys, [ag.weights, ag.points], atom=len(self.atoms) - 1)
